@@ -6,7 +6,7 @@
 patch="$(readlink -f "$1")"; shift
 wt="/tmp/mutant-wt.$$"
 git -C /repo worktree add -q --detach "$wt" HEAD || exit 2
-if ! git -C "$wt" apply "$patch"; then echo "patch does not apply"; git -C /repo worktree remove --force "$wt"; exit 2; fi
+if ! git -C "$wt" apply "$patch" 2>/dev/null && ! git -C "$wt" apply --3way "$patch"; then echo "patch does not apply"; git -C /repo worktree remove --force "$wt"; exit 2; fi
 export VERIF_REPO="$wt" VERIF_EVIDENCE_DIR=/tmp/mutant-evidence.$$ VERIF_REPLAY_DIR=/tmp/mutant-replays.$$
 for p in "$@"; do
   /verif/check "$p" ${VERIF_MUTANT_TIER:-quick} > /tmp/mutant.$$.out 2>&1; rc=$?
